@@ -128,6 +128,10 @@ video_sink_start(struct video_sink_s* self)
             channel_read_unmap(&self->in, &self->reader, stale.end - stale.beg);
         } while (stale.end > stale.beg);
     }
+    // Start every acquisition at the origin of an empty queue: a monitor that
+    // joins during this acquisition starts reading at the origin of the
+    // current lap and must not find frames of an earlier acquisition there.
+    channel_rewind(&self->in);
     self->is_stopping = 0;
     self->is_running = 1;
     CHECK(
